@@ -13,21 +13,38 @@ package transport
 // The two transports under udpWithFallback (assumptions: an exchange either returns a fresh,
 // well-formed message or an error; the query bytes are only read).
 //@ func (t *PipelineTransport) getConn(ctx context.Context) (c *pipelineConn, newConn bool, err error)
-//@   trusted
-//@   requires t != nil
+//@   props C05
+//@   requires t != nil && t.pool != nil
+// the pool hands out what its dial function (NewPipelineTransport$1, verified above) made: live connections of this
+// transport (their monitor invariant holds between critical sections)
+//@   assumecall Get: ret2 == nil ==> typeIs(ret0, *pipelineConn) && ptrOf(ret0, pipelineConn) != nil && pcInv(ptrOf(ret0, pipelineConn)) && pcLive(ptrOf(ret0, pipelineConn)) && ptrOf(ret0, pipelineConn).ctx != nil
+//@   ghost nGet int = 0
+//@   ghost gC connpool.Conn = nil
+//@   ghost gNew bool = false
+//@   ghost gE error = nil
+//@   oncall Get: nGet = nGet + 1
+//@   aftercall Get: gC = ret0
+//@   aftercall Get: gNew = ret1
+//@   aftercall Get: gE = ret2
 //@   modifies nothing
-// the pool hands out live connections of this transport (their monitor invariant holds between critical sections)
 //@   ensures err == nil ==> c != nil && pcInv(c) && pcLive(c) && c.ctx != nil
+//@   ensures [C05:what-the-pool-handed-out] nGet == 1 && err == gE && (gE == nil ==> c == ptrOf(gC, pipelineConn) && newConn == gNew) && (gE != nil ==> c == nil && !newConn)
+//@   callsite Get: [C05:from-its-own-pool] arg0 == t.pool && arg1 == ctx
 //@ func (t *PipelineTransport) releaseConn(c *pipelineConn)
-//@   trusted
+//@   props C05
+//@   requires t != nil && t.pool != nil
+//@   ghost nRel int = 0
+//@   oncall Release: nRel = nRel + 1
 //@   modifies nothing
+//@   ensures [C05:given-back-once] nRel == 1
+//@   callsite Release: [C05:this-connection-to-its-own-pool] arg0 == t.pool && typeIs(arg1, *pipelineConn) && ptrOf(arg1, pipelineConn) == c
 
 // ExchangeContext: at most 6 attempts (a reused connection that fails is retried at most 5 times, a freshly dialled
 // one never); every attempt sends the caller's payload itself (each connection stamps its own wire ID into a
 // private copy) and the connection is given back to the pool after each attempt.
 //@ func (t *PipelineTransport) ExchangeContext(ctx context.Context, m []byte) (r *dnsmsg.Msg, err error)
 //@   props C05 C01
-//@   requires t != nil && ctx != nil && len(m) <= 65535
+//@   requires t != nil && t.pool != nil && ctx != nil && len(m) <= 65535
 //@   ghost nTry int = 0
 //@   ghost nRel int = 0
 //@   oncall exchange?: nTry = nTry + 1
@@ -256,10 +273,42 @@ package transport
 //@   ensures (err == nil) == (t != nil)
 //@   ensures [C17:requests-go-through-the-given-round-tripper] err == nil ==> fresh(t) && t.rt == opts.RoundTripper && t.closer == opts.Closer && t.logger != nil && t.reqTemplate != nil && t.urlTemplate != nil && t.urlTemplate == t.reqTemplate.URL
 //@   callsite NewRequest: [C17:request-template-for-the-configured-url] arg1 == opts.EndPointUrl
+// NewPipelineTransport: the transport keeps the caller's options; its pool dials through the closure below.
 //@ func NewPipelineTransport(opts PipelineOpts) (t *PipelineTransport)
-//@   trusted
+//@   props C17 C18
+//@   requires opts.DialContext != nil
 //@   modifies nothing
-//@   ensures t != nil && fresh(t)
+//@   ensures t != nil && fresh(t) && t.pool != nil && t.logger != nil
+//@   ensures [C17:options-kept] t.opts.IsTCP == opts.IsTCP && t.opts.DialTimeout == opts.DialTimeout && t.opts.IdleTimeout == opts.IdleTimeout && t.opts.MaxConcurrentQuery == opts.MaxConcurrentQuery
+
+// the pool's dial function: one dial through the configured DialContext; a dial error is passed on and no connection
+// is made up; otherwise the pipelined connection is built on exactly the dialled socket, for this transport
+//@ closure NewPipelineTransport$1
+//@   props C17 C05
+//@   requires t != nil && t.logger != nil && ctx != nil && opts.DialContext != nil
+//@   dyncall DialContext: modifies nothing -- the configured dialer does not touch the transport's own objects
+//@   ghost nDial int = 0
+//@   ghost gC net.Conn = nil
+//@   ghost gE error = nil
+//@   oncall DialContext: nDial = nDial + 1
+//@   aftercall DialContext: gC = ret0
+//@   aftercall DialContext: gE = ret1
+//@   assumecall DialContext: ret1 == nil ==> ret0 != nil
+//@   modifies *
+//@   ensures [C17:one-dial-through-the-configured-dialer] nDial == 1
+//@   ensures [C17:dial-error-passed-on] gE != nil ==> ret0 == nil && ret1 == gE
+//@   ensures gE == nil ==> ret1 == nil && ret0 != nil
+//@   callsite newPipelineConn?: [C05,C17:connection-on-the-dialled-socket-of-this-transport] gE == nil && arg0 == gC && arg1 == t
+
+// Close closes the pool (and with it every pooled connection), once.
+//@ func (t *PipelineTransport) Close() (err error)
+//@   props C18
+//@   requires t != nil && t.pool != nil
+//@   ghost nC int = 0
+//@   oncall Close: nC = nC + 1
+//@   modifies nothing
+//@   ensures [C18:pool-closed-once] nC == 1
+//@   callsite Close: [C18:its-own-pool] arg0 == t.pool
 //@ func NewQuicTransport(opts QuicTransportOpts) (t *QuicTransport)
 //@   props C18
 //@   modifies nothing
